@@ -510,7 +510,17 @@ func c11EmitFieldList(fields []c11Field, out *[]byte) {
 		case 5:
 			// Connection(Buffer): 0x02 BufferOp PkgLength BufferSize(ByteData-prefixed const) bytes
 			var body []byte
-			body = append(body, byte(pOpBytePrefix), byte(len(f.connB)))
+			// the size constant is written with a byte, word or dword prefix (a function of the content, so that
+			// the encoder needs no random source); 256 bytes and more need at least a word
+			n := len(f.connB)
+			switch k := n % 3; {
+			case k == 0 && n < 256:
+				body = append(body, byte(pOpBytePrefix), byte(n))
+			case k == 1 || (k == 0 && n < 65536):
+				body = append(body, byte(pOpWordPrefix), byte(n), byte(n>>8))
+			default:
+				body = append(body, byte(pOpDwordPrefix), byte(n), byte(n>>8), byte(n>>16), byte(n>>24))
+			}
 			body = append(body, f.connB...)
 			*out = append(*out, 2, byte(pOpBuffer))
 			*out = append(*out, c11PkgLenEnc(len(body), 0)...)
